@@ -852,7 +852,12 @@ func genEvents(rng *rand.Rand) c08Prog {
 
 func genValid(rng *rand.Rand) c08Prog {
 	var b strings.Builder
-	b.WriteString("s := read\nt := read\nprint \"in\" s t\n")
+	input := []string{"first line", "second"}
+	if rng.Intn(2) == 0 {
+		b.WriteString("s := read\nt := read\nprint \"in\" s t\n")
+	} else {
+		input = nil // programs without read are also rendered to SVG through pkg/cli
+	}
 	b.WriteString("total := 0\nfor i := range 5\n    r := rand 1000\n    total = total + r\n    print i r (rand1 < 2)\nend\nprint total\n")
 	stmts := []string{
 		"move 10 20\nline 30 40\nrect 5 6\ncircle 7\n",
@@ -874,7 +879,7 @@ func genValid(rng *rand.Rand) c08Prog {
 	if rng.Intn(3) == 0 {
 		b.WriteString([]string{"exit 3\n", "panic \"boom\"\n", "zz := [1]\nprint zz[4]\n", "test 1 2 \"msg\"\ntest true\n"}[rng.Intn(4)])
 	}
-	return c08Prog{Family: "valid-mixed", Src: b.String(), Input: []string{"first line", "second"}}
+	return c08Prog{Family: "valid-mixed", Src: b.String(), Input: input}
 }
 
 var c08Soup = []string{"func", "end", "if", "else", "for", "range", "while", "on", "return", "break", ":=", "=", "==", ":", "{", "}", "[", "]", "(", ")",
@@ -1042,7 +1047,9 @@ func c08CheckBatch(cfg Config, r *Result, model *Model, progs []c08Prog, inproc 
 				Input:  p, Impl: map[string]any{"outcomes": variants, "first_seen_in": where}})
 		}
 		// correspondence: observed ⊆ model's outcomes over all permutations
-		if p.Site != "" && model != nil {
+		if p.Site != "" && model != nil && p.N > 7 {
+			stats["model-skipped-more-than-7-entries"]++ // 8! orders and more: oracle only
+		} else if p.Site != "" && model != nil {
 			ans, err := model.Ask(p.Case)
 			if err != nil {
 				r.Violate(Violation{Kind: "correspondence", Key: "model-crash", Detail: err.Error(), Input: p})
